@@ -9,7 +9,7 @@ from collections import Counter
 from fractions import Fraction
 
 from .. import space
-from ..common import Run, rotate, run_pool
+from ..common import cap_findings, Run, rotate, run_pool
 from ..refmodel import reference
 from ..tensors import all_formats, fmt_str, full_structure, parse_fmt
 
@@ -216,7 +216,7 @@ def work(unit):
             findings.append(_f("wrong-exception", f"evaluate output format {wrong!r}: {type(e).__name__}: {e}",
                                {**case0, "call": "evaluate output format"}, exception=type(e).__name__, entry="evaluate"))
     stats["entry counter installed"] += int(counter.installed)
-    return {"stats": dict(stats), "findings": findings[:40], "samples": samples, "calls": calls,
+    return {"stats": dict(stats), "findings": cap_findings(findings), "samples": samples, "calls": calls,
             "wall": time.time() - t0}
 
 
